@@ -1057,6 +1057,26 @@ func (w *world) finalChecks() {
 			}
 		}
 	}
+	// C11 / C19: with every request answered no cached resource may still be waiting for a get
+	// response (a get that was handed to a throttle and never sent): its subscribers, present and
+	// future, would wait for ever and its uses are never given back
+	if len(w.mq.outstanding()) == 0 && w.taint == "" {
+		for _, e := range w.serv.VerifCache().VerifSnapshot() {
+			waiting := e.Base != nil && e.Base.State == 2
+			for _, q := range e.Queries {
+				waiting = waiting || q.State == 2
+			}
+			if !waiting {
+				continue
+			}
+			if w.cfg.referenceThrottle > 0 {
+				w.addViolation("C19", "get-never-sent", fmt.Sprintf("cached resource %s still waits for a get response although every request has been answered (a throttled get was never sent)", w.absSubject(e.Name)))
+			}
+			if len(w.mon.gone) > 0 {
+				w.addViolation("C11", "load-abandoned-after-disconnect", fmt.Sprintf("cached resource %s still waits for a get response that was never requested, after a connection was closed: what the connection held is not released and later subscribers wait for ever", w.absSubject(e.Name)))
+			}
+		}
+	}
 	// C19: with every request answered nothing may still wait for a throttle slot
 	if (w.cfg.referenceThrottle > 0 || w.cfg.resetThrottle > 0) && len(w.mq.outstanding()) == 0 && w.taint == "" {
 		for _, cs := range snap {
